@@ -40,7 +40,7 @@ def handleAsm : List String → String
     let h := decNats hd
     let fn : Fn := { kind := h.getD 0 0, fFunction := b (h.getD 1 0), cFunction := b (h.getD 2 0),
                      genSuffix := h.getD 3 0, resAsArg := b (h.getD 4 0), rsgroup := h.getD 5 0,
-                     rspointer := h.getD 6 0, rderef := h.getD 7 0, rowner := h.getD 8 0,
+                     rspointer := h.getD 6 0, rderef := h.getD 7 0, rowner := h.getD 8 0, resSuffix := h.getD 9 0,
                      params := ps.map decParam }
     let a := assembleF (rowsL lang) fn
     encNats a.fargs ++ " " ++ (if a.actuals.isEmpty then "-" else ",".intercalate (a.actuals.map encActual))
